@@ -83,5 +83,19 @@ def exGen : GenCfg :=
 example : (initState exGen).bank.balOf Mstr "nund" = 0 := by decide
 example : (keys (initState exGen).bank.bal).Nodup := by decide
 
+/-- **A second `CreateStream` for a pair that already has a stream record is refused and changes nothing** — whether
+that stream is running, has run out with part of its deposit unclaimed, or has been emptied: the record (and whatever it
+still holds for the receiver) stays until it is cancelled. -/
+theorem c10_create_over_existing_stream_refused (x : SB) (now : Int) (r s : Addr) (denom : String) (amt rate : Int)
+    (st : Stream) (hf : find? x.str.streams (r, s) = some st) :
+    ∃ e, createStream x now isBlocked (AddrTok.canon r) (AddrTok.canon s) denom amt rate = .error e := by
+  have hc : AL.contains x.str.streams (r, s) = true := by simp [AL.contains, hf]
+  simp only [createStream, AddrTok.canon, AddrTok.decodeM, AddrTok.decode, bind, Except.bind]
+  cases hb : isBlocked r
+  · by_cases hne : (AddrTok.ok s false) ≠ (AddrTok.ok r false)
+    · simp [hb, hne, hc, require]
+    · simp [hb, hne, require]
+  · simp [hb, require]
+
 end C10
 end Mainchain
